@@ -25,7 +25,7 @@ CHECKS["C03"] = ("bfs+sweep (worker subprocesses)", "model_checking",
     "is fed whole, byte by byte and with empty reads; all strings up to length 4-5 over the alphabet (and all byte strings up to length 2-3) "
     "are decoded under ALL partitions into reads - each partition twice: as separate reads and as successive fill_buf slices of ONE reader, and (whole input; single cuts of short inputs) with one decode call followed by decode_into on every read; "
     "for every looping state of the automata a read of 32 / 65 filler bytes followed by every way of leaving the loop starts inside the loop (bulk handling of long reads), also with 70 000 and 1 100 000 filler bytes; the incremental tokeniser core is instantiated (hook H1) over every set of up to 2 (3) "
-    "patterns from a pool of 14 and run on every input over {a,b,c} up to length 7 (8) under all partitions. Each execution is compared with "
+    "patterns from a pool of 14 and run on every input over {a,b,c} up to length 7 (8) under all partitions, and once more with a, b, c standing for the bytes 0xFF, 0x00, 0x80 (whole and byte by byte). Each execution is compared with "
     "the others (same events, same final state) and with a reference leftmost-longest tokenisation computed from per-prefix acceptance of "
     "the DFA (production) / from regular-expression derivatives (pattern sets). States/transitions are those of the real decoder.",
     "Reference garbage grouping follows the library (statement silent); what a recognised token decodes to is C04; buffers longer than the bound and alphabets beyond the representatives are not explored.",
@@ -49,14 +49,14 @@ CHECKS["C16"] = ("bfs + devdfs (worker subprocesses)", "model_checking",
     "len() must equal the readable bytes, bytes come out in order exactly once, and a drop may remove only whole flush-delimited chunks that have not started; a second pass over one-byte and 64 KiB / 70 001-byte writes and consumes to depth 7 (9) and (read_to_end in the alphabet; after every history a probe continuation - 3 bytes, flush, 2 bytes, drain - must deliver everything pending plus the five bytes, and its chunk lengths are part of the state key) and a third over a 3.3 MB chunk with consumes of 1 MiB + 1 and 2.2 MB to depth 4 (5) cover buffer re-allocation and block-release thresholds. "
     "(b) The real UnixTerminal runs scripted write/execute/flush/poll/frames_drop sessions on a real pseudo-terminal while hook H2 lets the harness answer every "
     "select/write/read and own the clock; ALL schedules with at most 2 (3; short sessions 3 (4), in the quick tier not those pushing more than 64 KiB) departures from the cooperative answer (short write of 1 / half / len-1 bytes, EAGAIN, EINTR, "
-    "withheld or delayed writability) are executed to completion, for every crash point of every session; the bytes accepted by the tty must be the written chunks in order, whole, "
+    "withheld or delayed writability) are executed to completion, for every crash point of every session (two sessions with the kitty image handler active put an image command inside a frame that is dropped); the bytes accepted by the tty must be the written chunks in order, whole, "
     "with only not-yet-started chunks missing after frames_drop.",
     "Kernel model (write accepts a prefix, select never invents readiness); encoder output taken as given (C05); sessions and payload sizes are the listed ones; more deviations than the bound are not explored.",
     "DESIGN.md §C16")
 CHECKS["C17"] = ("devdfs (worker subprocesses)", "fault_enumeration",
     "deviation-bounded enumeration of environment events (wake, SIGWINCH, SIGTERM, input, hang-up) at every system-call boundary and of every crash point, real UnixTerminal on a pty",
     "Same explorer as C16(b). In addition a waker call, SIGWINCH, SIGTERM, the next input bytes or a hang-up may land before ANY select/write/read or between the signal, waker and input "
-    "phases of the poll loop (hook points), each costing one deviation; polls use timeouts 0, 5 ms (virtual clock) and infinite; bursts of 127 / 128 / 256 / 1024 wake requests before one poll; a termination and a window-size signal pending together in both orders; three wake requests at every triple of points; three keys typed before position() with another one arriving inside it; two terminal objects one after the other on one pty device number (the first hung up before its release, the second with other initial line settings; real system calls, in a child process); the terminal is released after every prefix of every session. "
+    "phases of the poll loop (hook points), each costing one deviation; polls use timeouts 0, 5 ms (virtual clock) and infinite; bursts of 127 / 128 / 256 / 1024 wake requests before one poll; a termination and a window-size signal pending together in both orders; three wake requests at every triple of points; three keys typed before position() with another one arriving inside it; two terminal objects one after the other on one pty device number (the first hung up before its release, the second with other initial line settings; real system calls, in a child process); eleven placements of the tty descriptor relative to the descriptors the terminal allocates itself (as given, moved to 40 with 0..6 or all lower numbers free, moved to 200 and 700; real system calls: typed keys must arrive, output and the closing sequence must reach the peer); the terminal is released after every prefix of every session. "
     "Oracle: a wake is followed by a Wake event from the current or a later poll and never blocks a poll for ever; SIGWINCH yields a Resize; SIGTERM yields the quit error; input bytes come out "
     "as the events a reference decoder gives, in order; no quit without cause; after release tcgetattr equals the saved settings and, if the tty kept accepting writes, the closing sequence "
     "(cursor visible, mouse modes off) was delivered. Every failing schedule is replayed twice and must fail identically.",
@@ -66,7 +66,7 @@ CHECKS["C17"] = ("devdfs (worker subprocesses)", "fault_enumeration",
 CHECKS["C02"] = ("sweep (worker subprocesses)", "exploration",
     "exhaustive enumeration of byte strings, UTF-8 lattice, hostile-token lattice and edit neighbourhoods in worker subprocesses",
     "Every byte string up to length 2 (3) over all 256 bytes for the three decoders, the UTF-8 boundary lattice (every lead byte x boundary continuation bytes) and every Unicode scalar value, "
-    "36 sequence templates x a 16-value hostile number lattice for every numeric field plus ~120 fixed malformed tokens, 16 sequence shapes with one numeric field taking EVERY value 0..=70 000 (every value up to 0x110010), 600 giant sequences (string introducers followed by 64 KiB .. 1.1 MB of one byte and five tails), and all single (double) byte edits of 130 base tokens are fed whole, "
+    "36 sequence templates x a 16-value hostile number lattice for every numeric field plus ~120 fixed malformed tokens and 384 OSC colour replies whose value is a short lead followed by a multi-byte character or a stray continuation byte, 16 sequence shapes with one numeric field taking EVERY value 0..=70 000 (every value up to 0x110010; the swept number is judged as a decoded field where the event carries it), 600 giant sequences (string introducers followed by 64 KiB .. 1.1 MB of one byte and five tails), and all single (double) byte edits of 130 base tokens are fed whole, "
     "at every cut, byte by byte and with empty reads (all partitions up to length 5). Oracle: no panic, no abort or stall of the worker process (attributed to the exact input through a memory-mapped progress record "
     "and confirmed in a fresh process), decode returns None once input is exhausted and keeps doing so, every char is a scalar value, raw events are non-empty, and every numeric field of a recognised event is the exact "
     "transmitted value, the type's maximum, or the sequence is unrecognised. Strings over the representative alphabet up to length 4-5 under all partitions run through the same driver in C03.",
@@ -75,7 +75,7 @@ CHECKS["C02"] = ("sweep (worker subprocesses)", "exploration",
 
 CHECKS["C11"] = ("bfs / history enumeration", "model_checking",
     "exhaustive enumeration of draw/erase/response histories on the real KittyImageHandler against an independent kitty-graphics parser and reference terminal image store",
-    "All histories of depth 3 (no de-duplication; 1.19 M) and, de-duplicated by (transmitted ids, reference terminal state), depth 4 (6) over a 106-operation alphabet (7 images incl. 1x1, cropped/strided view, equal pixels in another allocation, "
+    "All histories of depth 3 (no de-duplication; 1.19 M) and, de-duplicated by (transmitted ids, reference terminal state), depth 4 (6) over a 120-operation alphabet (8 images incl. 1x1, cropped/strided view, a crop taken after its parent was hashed and drawn, equal pixels in another allocation, "
     "empty, exactly-4096-byte payload, three-chunk payload; 4 positions incl. the origin and (65535,65535); draw, erase(Some), erase(None), OK and error responses for known and unknown ids, unrelated events) are executed on the real handler, "
     "plus every history of 2 (3) operations over a second set of 11 images that differ in memory layout (row-major, transposed, windows with gaps, re-allocated copies; ids must be injective on content), volume histories (a 134 MB image drawn twice; thorough: 12 x 16 MiB and 40 x 4 MiB images twice), sinks that take 1 / 7 bytes per call, a first draw whose sink fails after 0 / 1 / 20 / 60 / 4300 bytes followed by a draw into a working sink, the .quiet() handler, 1 024 single-pixel images over every channel value and thousands of sizes across the chunk boundaries. The emitted bytes are parsed by an independent APC/kitty parser and fed to a reference terminal store; "
     "oracle: valid commands, s/v = image size, f=32, chunks <= 4096 and multiples of 4 with correct m flags, payload base64-decodes to the exact RGBA pixels row-major, at most one transmission per content (plus one per evicting error), "
@@ -85,7 +85,7 @@ CHECKS["C11"] = ("bfs / history enumeration", "model_checking",
 CHECKS["C12"] = ("sweep", "exploration",
     "exhaustive small-image sweep decoded by an independent sixel interpreter",
     "All colourings of 6x1 and 6x2 images over 3 colours and 6x3 over 2 (thorough: 6x2 over 4, 6x4, 12x1, 12x2), all constant-column single-band images up to width 12 (16), heights {6,7,11,12,13} x widths 1..5, >256 colour gradients, "
-    "alpha {0,128,255} over three backgrounds, 1 260 crops, every channel value, runs of fully transparent black pixels, images stored column-major (transposed views, plain and cropped), erase(Some) / erase(None) between draws, repeated draws on shared handlers and into sinks that take 1 / 7 bytes per call: 0.82 M (51.8 M) images. The emitted bytes are decoded by an independent sixel interpreter (raster attributes, colour registers, "
+    "alpha {0,128,255} over three backgrounds, 1 260 crops, every channel value, runs of fully transparent black pixels, images stored column-major (transposed views, plain and cropped), erase(Some) / erase(None) between draws, repeated draws on shared handlers (incl. row-major / column-major twins over one pixel sequence and crops taken after the parent was drawn) and into sinks that take 1 / 7 bytes per call: 0.82 M (51.8 M) images. The emitted bytes are decoded by an independent sixel interpreter (raster attributes, colour registers, "
     "repeat, $, -) into an unpainted-initialised raster; oracle: one well-formed sequence, declared size = width x 6*floor(h/6), every pixel painted exactly inside the raster, only defined registers (<= 256), pixel-exact equality at 0-100 "
     "resolution when the colours fit and the image is not subsampled, second draw byte-identical.",
     "Trusts the sixel reading of model/sixel.rs; partial alpha is only checked to lie between pixel and background; images above the subsampling threshold are checked for structure only.",
@@ -93,13 +93,13 @@ CHECKS["C12"] = ("sweep", "exploration",
 CHECKS["C14"] = ("bfs + sweep", "model_checking",
     "closed BFS over the encoder's carry state + exhaustive partition / reader-schedule enumeration against an RFC 4648 reference codec",
     "Encoder: the carry-state graph (65 793 states x 256 bytes) is closed on the real encoder; all 2^24 three-byte groups and all tails; every partition into writes for n <= 12 (18), with flushes, one-byte sinks and empty writes, "
-    "lengths 0..=200 under all <= 2-cut partitions. Decoder: lengths 0..=200 x 18 cyclic reader schedules (six of them with interrupted reads) x 12 destination-buffer patterns, lengths up to 65 537 through reads and destinations up to 100 000, EVERY composition of the text into reads for <= 16 (24) characters, all 2^24 groups; "
+    "lengths 0..=200 under all <= 2-cut partitions. Decoder: lengths 0..=200 x 18 cyclic reader schedules (six of them with interrupted reads) x 21 destination patterns (buffer sizes, and read_to_end / read_vectored from the start and after partial reads), lengths up to 65 537 through reads and destinations up to 100 000, EVERY composition of the text into reads for <= 16 (24) characters, all 2^24 groups; "
     "every length not divisible by four must error; ~1.2 M garbage inputs (all two-byte, 20^4 four-character, 64-byte buffer boundary sweeps) must not panic. Reference: RFC 4648 codec checked against the RFC vectors and CPython.",
     "Readers/writers that fail are out of scope; invalid characters only need to avoid a panic (statement silent on their decoding).",
     "DESIGN.md §C14")
 CHECKS["C15"] = ("product-automaton bfs", "model_checking",
     "product BFS (real DFA state x Brzozowski derivative vector) to a fixpoint for every combinator expression up to the node bound",
-    "Every expression with <= 6 (7) nodes over atoms {a, b, [ab], \"ab\", empty, nothing} and operators sequence/choice (2-3 operands)/optional/some/many (124 k; thorough 1.29 M), an edge-arity space (empty and one-element lists) and a deep {a,b} space are built - each with the constructor functions and, where it has one, in the operator form `a + b`, `a | b` - "
+    "Every expression with <= 6 (7) nodes over atoms {a, b, [ab], \"ab\", empty, nothing} and operators sequence/choice (2-3 operands)/optional/some/many (124 k; thorough 1.29 M), an edge-arity space (empty and one-element lists, a non-ASCII literal) and a deep {a,b} space are built - each with the constructor functions and, where it has one, in the operator form `a + b`, `a | b` - "
     "through the public NFA API and compiled; the real DFA is stepped on all 256 bytes in every reachable product pair with the derivative of the expression; reaching the fixpoint decides language equality for ALL strings. "
     "Checked in every pair: accepting <=> nullable, dead transition <=> empty derivative, terminal => no byte extends, and for tagged choices tags == alternatives whose derivative is nullable. The production decoder automata (hook H1) are "
     "checked the same way against a byte-level transcription of their grammars. Both reference matchers are cross-checked against CPython re.fullmatch.",
@@ -108,7 +108,7 @@ CHECKS["C15"] = ("product-automaton bfs", "model_checking",
 CHECKS["C18"] = ("bfs + sweep", "model_checking",
     "explicit-state BFS over registration histories of the real KeyMap against a dictionary model; exhaustive matcher and parser sweeps",
     "BFS over histories of register(chord of length 1-3 over {a,b,ctrl+c}) to depth 3 (4) and over {a,b} to depth 4 (6) with an observational key (for_each listing + lookup of every chord up to length 4): in every state all lookups, "
-    "the enumeration and register's return value are compared with a last-writer-wins prefix-free dictionary. register_override over all ordered pairs of 1 435 (2 729) small maps. KeyMapHandler/lookup_state on every prefix-free set of up to 3 (4) chords x "
+    "the enumeration and register's return value are compared with a last-writer-wins prefix-free dictionary. register_override over all ordered pairs of 1 435 (2 729) small maps. Every ordered pair of keys over 5 names x 512 modifier sets bound in one map (quick: all pairs of one name, other names at modifier distance <= 1): different keys keep their own values. KeyMapHandler/lookup_state on every prefix-free set of up to 3 (4) chords x "
     "every key string up to length 5 (6) over {a,b,c,x}: fires exactly at the last key from idle, an unbound key never blocks the next chord, every firing is sound. Parsers: all strings of <= 3 (5) tokens over a 24-token alphabet, f+1..30 digits, "
     "every KeyName x 2^9 modifier sets printed and re-parsed, every code point below U+3000 (every scalar value) in ten raw spellings (bare, quoted, with modifiers, inside chords), all ordered pairs of 22 modifier-like words around four keys in five arrangements; registration BFS over keys that are easy to confuse (F1, F(1+2^32), Tab, the tab character; a, numlock+a, b); the matcher sweep repeated with pointer motion, Tab and a mouse button behind the key indices; "
     "registrations between two chords: for all ordered pairs of 195 small binding sets, a matcher that the statement calls idle must answer like a fresh one after the second set is registered (lookup_state with the caller's buffer and KeyMapHandler).",
@@ -118,7 +118,7 @@ CHECKS["C20"] = ("sweep", "exploration",
     "complete sweep of all 2^24 colours through the real encoder against brute force over the xterm palette",
     "All 2^24 opaque colours are encoded with the real TTYEncoder as Face.fg under EightBit, Gray and TrueColor (quick; bg and underline colour on the complete 65^3 lattice), and at all five call sites (Face.fg/bg, FaceModify.fg/bg/underline_color) in thorough; "
     "the emitted SGR is parsed independently. EightBit: index in 16..=255 whose distance (library's LinColor metric, palette from its sRGB xterm definition) is within 1e-5 of the brute-force minimum over all 240 entries; Gray: nearest of the four levels by luma and monotone over the sorted sweep; "
-    "TrueColor: exact r;g;b. Two-emission histories on one encoder (16^3 colour lattice x {same colour, neighbour, half-transparent twin} x 25 role pairs x 3 depths) and both colours in one Face / FaceModify command: each emission is judged like a fresh encoder's.",
+    "TrueColor: exact r;g;b. Two-emission histories on one encoder (16^3 colour lattice x {same colour, neighbour, half-transparent twin} x 25 role pairs x 3 depths) and both colours in one Face / FaceModify command: each emission is judged like a fresh encoder's. Terminal objects opened on ptys under seven environments (TERM dumb / linux / xterm, COLORTERM unset / truecolor / 24bit, emulator answering the face query) execute 125 colours x 5 roles; every sequence is judged by the oracle of the depth the object reports.",
     "Trusts LinColor::distance / From<RGBA> as the metric the statement refers to; ties within 1e-5 (table rounding) are not judged.",
     "DESIGN.md §C20")
 
@@ -143,14 +143,14 @@ CHECKS["C06"] = ("sweep + bfs", "model_checking",
     "complete round-trip sweep encoder->decoder under partitions + explicit-state BFS over SGR histories through the escape-sequence cell writer against a reference SGR state machine",
     "(a) Every FaceModify and Face of the lattice is encoded in true-colour mode and decoded by TTYCommandDecoder under every partition with at most 2 (1 for the large lattices) cuts; every value of each colour channel in each colour slot; all 1.1 M characters except ESC round-trip as Char. "
     "(b) BFS with state = current face of a CellWrite sink behind tty_writer(): 600 operations (sequences of 1-2 tokens from a 24-token SGR alphabet the library claims, each followed by a character whose cell face is observed), "
-    "depth 2 (thorough: to the fixpoint, 1 600 states, 960 k transitions), the last sequence written under every <= 2-cut partition and byte by byte; reference: model/sgr.rs (each attribute and colour set/cleared independently, later parameters win, 0 resets).",
+    "depth 2 (thorough: to the fixpoint, 1 600 states, 960 k transitions), the last sequence written under every <= 2-cut partition and byte by byte, and with a write boundary inside the text that precedes it; reference: model/sgr.rs (each attribute and colour set/cleared independently, later parameters win, 0 resets).",
     "SGR 21 and codes the library does not claim are outside the alphabet; underline colour has no slot in Face.",
     "DESIGN.md §C06")
 
 CHECKS["C07"] = ("bfs", "model_checking",
     "explicit-state BFS over chains of view/transpose to the fixpoint of the shape graph on the real surface types against a list-of-lists window model",
-    "Bases with sides 0..=5 (0..=8) in a dense and a strided/padded layout, 122 operations (transpose and view(rows, cols) over an 11-symbol selector alphabet incl. negative, inclusive, open, empty and out-of-range bounds); key = base + Shape; the BFS runs to the "
-    "fixpoint (5 001 / 57 794 states, so chain length is unbounded). Every transition re-executes the program through five ownership paths (view on &S, view_mut, view_owned on &mut S, nested owned view over Box<dyn SurfaceMut>, and - for chains of up to 4 steps - method calls on values of the concrete view types, "
+    "Bases with sides 0..=5 (0..=8) in a dense and a strided/padded layout, 145 operations (transpose and view(rows, cols) over a 12-symbol selector alphabet incl. negative, inclusive, open, empty and out-of-range bounds); key = base + Shape; the BFS runs to the "
+    "fixpoint (5 001 / 57 794 states, so chain length is unbounded). Every transition re-executes the program through six ownership paths (view on &S, view_mut, view_owned on &mut S, nested owned view over Box<dyn SurfaceMut>, and - for chains of up to 4 steps - method calls on values of the concrete view types and the finished view held behind &S, &mut S, Box<S>, Arc<S> (the forwarding implementations), "
     "so the caller's method resolution is exercised) which must agree, and runs the full access battery: "
     "get/get_mut inside and in a ring outside (incl. usize::MAX probes), iter (count, order, position, index), every iterator adaptor a type may override (fold, for_each, collect, count, last, size_hint, find, position, all) after k items taken with next, iter_mut with the raw addresses of all yielded references required pairwise distinct and inside the window, nth, fill, fill_with, clear, insert at every offset, map, "
     "to_owned_surf, each against the window model, with a sentinel copy of the base compared after every mutation. Thorough adds a Miri replay of a reduced program set (supplementary UB detector, never the decider).",
